@@ -1065,8 +1065,16 @@ func c14RestoreRace(r *Run) {
 			if e != 0 || im == nil || im.N() == 0 {
 				continue
 			}
-			prog := GenWalProgram(t, im.N(), 10)
-			prog.Outcome = OutCommit
+			// The transaction rewrites every page (like a VACUUM): the image read
+			// above may be stale by the time the write lock is taken - the restore
+			// may have replaced the database with a smaller one in between, where
+			// real SQLite would start from what it finds then - and a program that
+			// touches only some pages of a database that has shrunk under it would
+			// leave holes no SQLite transaction leaves.
+			prog := WalTxProgram{NewSize: im.N() + uint32(t.Range(0, 2)), Outcome: OutCommit}
+			for pg := uint32(1); pg <= im.N(); pg++ {
+				prog.Modify = append(prog.Modify, pg)
+			}
 			if res := c.WalWriteTx(prog, im); res.Outcome == OutCommit {
 				commits++
 				r.Count("c14.race.commit")
